@@ -74,7 +74,7 @@ func (mergeEngine) Gen(t *rapid.T, tier string) any {
 	for i := 0; i < nev; i++ {
 		c.Events = append(c.Events, simrt.EvSpec{
 			Author: rapid.IntRange(0, 1).Draw(t, "author"), Kind: rapid.SampledFrom([]int64{1, 1, 7}).Draw(t, "kind"),
-			CreatedAt: int64(rapid.IntRange(1, 6).Draw(t, "created_at")), Content: fmt.Sprintf("m%d", i)})
+			CreatedAt: int64(rapid.IntRange(0, 6).Draw(t, "created_at")), Content: fmt.Sprintf("m%d", i)})
 	}
 	nch := rapid.IntRange(2, 4).Draw(t, "nchildren")
 	// now and then a wide merge (the property speaks of every number of
